@@ -62,11 +62,15 @@ def whyBuildUnparsable (args : List Bytes) : String :=
     | none => "options-unparsable")
   | [] => "unparsable"
 
+/-- the environment a sequence of `env(k, v)` calls configures: one pair per key, the last value -/
+def envMap (calls : List (Bytes × Bytes)) : List (Bytes × Bytes) :=
+  calls.foldl (fun m kv => if m.any (fun e => e.1 == kv.1) then m.map (fun e => if e.1 == kv.1 then (e.1, kv.2) else e) else m ++ [kv]) []
+
 def checkBuild (i : Nat) (fx : List (Bytes × Bytes)) (b : BCase) (args : List Bytes) (snap : Option String) : Option String :=
   match Spec.Pack.parsePackBuild args with
   | none => some (idx "pack-build" i (whyBuildUnparsable args))
   | some pb =>
-    let envExpected := b.cfg.cfg.env.map (fun kv => (kv.1, some kv.2))
+    let envExpected := (envMap b.cfg.cfg.env).map (fun kv => (kv.1, some kv.2))
     if pb.builder != some b.cfg.cfg.builder then some (idx "pack-build" i "builder")
     else if pb.buildpacks != b.cfg.cfg.buildpacks then some (idx "pack-build" i "buildpacks")
     else if !(permEq pb.env envExpected) then some (idx "pack-build" i "env")
@@ -86,7 +90,7 @@ def checkStart (j : Nat) (image : Bytes) (cfg : ContainerConfig) (args : List By
   | none => some (idx "docker-run" j (whyRunUnparsable args))
   | some r =>
     if r.entrypoint != cfg.entrypoint then some (idx "docker-run" j "entrypoint")
-    else if !(permEq r.env (cfg.env.map (fun kv => (kv.1, some kv.2)))) then some (idx "docker-run" j "env")
+    else if !(permEq r.env ((envMap cfg.env).map (fun kv => (kv.1, some kv.2)))) then some (idx "docker-run" j "env")
     else if !(permEq r.publish (cfg.exposedPorts.map (fun p => ⟨w!"127.0.0.1", [], p, w!"tcp"⟩))) then some (idx "docker-run" j "ports")
     else if !(permEq r.mounts (cfg.bindMounts.map (fun m => ⟨w!"bind", some m.1, m.2, false, []⟩))) then some (idx "docker-run" j "mounts")
     else if r.image != image then some (idx "docker-run" j "image")
